@@ -474,16 +474,18 @@ def traceBody (ctx : Ctx) : List Lit → Nat → Bindings → List (String × Tu
       | none => (b, fs, some (.cmpError i))
     | .other => (b, fs, some (.cmpError i))
 
+/-- one clause of `explain_why_not` (why_not.rs:63-374). -/
+def explainClause (ctx : Ctx) (target : Tuple) (r : Rule) (i : Nat) : ClauseExpl :=
+  match unifyHead target r.head with
+  | none => { idx := i, ruleIdx := ruleIndex ctx.rules r, blocker := some .headMismatch }
+  | some bd =>
+    let t := traceBody ctx r.body 0 bd []
+    { idx := i, ruleIdx := ruleIndex ctx.rules r, bindings := t.1.filter (fun p => !isPlaceholderName p.1),
+      facts := t.2.1, blocker := t.2.2 }
+
 def explainClauses (ctx : Ctx) (target : Tuple) : List Rule → Nat → List ClauseExpl
   | [], _ => []
-  | r :: rs, i =>
-    let c : ClauseExpl := match unifyHead target r.head with
-      | none => { idx := i, ruleIdx := ruleIndex ctx.rules r, blocker := some .headMismatch }
-      | some bd =>
-        let t := traceBody ctx r.body 0 bd []
-        { idx := i, ruleIdx := ruleIndex ctx.rules r, bindings := t.1.filter (fun p => !isPlaceholderName p.1),
-          facts := t.2.1, blocker := t.2.2 }
-    c :: explainClauses ctx target rs (i + 1)
+  | r :: rs, i => explainClause ctx target r i :: explainClauses ctx target rs (i + 1)
 
 /-- `explain_why_not`: `none` = "No rules produce this relation". -/
 def explainWhyNot (ctx : Ctx) (rel : String) (target : Tuple) : Option (List ClauseExpl) :=
